@@ -78,8 +78,14 @@ Definition cl2_pcc (n : R) (w b : C) (sigma : R) (x : C) : C :=
 Definition l1r_val (wr wi : R) (b x : C) : R := Rabs (wr * (fst x - fst b)) + Rabs (wi * (snd x - snd b)).
 Definition l1r_prox (n wr wi : R) (b : C) (sigma : R) (x : C) : C :=
   (softR (fst x - fst b) (Rabs (wr * sigma / n)) + fst b, softR (snd x - snd b) (Rabs (wi * sigma / n)) + snd b).
-(* what L1NormViewAsReal.forward actually evaluates: wc = weight.is_complex(), dc = (x - target).is_complex() *)
+(* what L1NormViewAsReal.forward evaluates: wc = weight.is_complex(), dc = (x - target).is_complex();
+   for real data only the real part of a complex weight acts ((self.weight.real * diff).abs(), repaired in f138c0a) *)
 Definition l1r_val_code (wc dc : bool) (w b x : C) : R :=
+  let d := csub x b in
+  if dc then (if wc then Rabs (fst w * fst d) + Rabs (snd w * snd d) else Rabs (fst w * fst d) + Rabs (fst w * snd d))
+  else Rabs (fst w * fst d).
+(* Legacy: the definition before f138c0a, which used the complex modulus of the weight on real data (KF-C08-1) *)
+Definition l1r_val_code_legacy (wc dc : bool) (w b x : C) : R :=
   let d := csub x b in
   if dc then (if wc then Rabs (fst w * fst d) + Rabs (snd w * snd d) else Rabs (fst w * fst d) + Rabs (fst w * snd d))
   else (if wc then cabs (cmul w (fst d, 0)) else Rabs (fst w * fst d)).
